@@ -122,6 +122,55 @@ def visit_binop(args):
     return False, "ok: %s : %s" % (text, declared)
 
 
+@driver
+def function_ast_in_arith(args):
+    "a table math function used inside arithmetic: sin(a) + b must translate and be typed so that arithmetic accepts it"
+    import ast
+    from func_adl_xAOD.common.cpp_functions import FunctionAST, functions_to_replace
+    v = _visitor()
+    scope = v._gc.current_scope()
+    info = functions_to_replace["sin"]
+    call = ast.Call(func=FunctionAST(info.cpp_name, info.include_files, info.cpp_return_type), args=[_const_node("a", "double", scope)], keywords=[])
+    node = ast.BinOp(left=call, op=ast.Add(), right=_const_node("b", "int", scope))
+    try:
+        v.visit_BinOp(node)
+    except Exception as e:  # noqa
+        return True, "sin(a) + b is refused: %s: %s" % (type(e).__name__, e)
+    if not isinstance(node.rep.cpp_type().type, str):
+        return True, "sin(a) + b has a result type whose name is not a string: %r" % (node.rep.cpp_type().type,)
+    return False, "ok: %s : %s" % (node.rep.as_cpp(), node.rep.cpp_type().type)
+
+
+@driver
+def math_table(args):
+    "every math function the README lists is in the table (also under builtins.<n> when python resolves n to a builtin) and maps to its namesake"
+    import builtins
+    import os
+    import re
+    import func_adl_xAOD
+    from func_adl_xAOD.common.cpp_functions import functions_to_replace as tbl
+    readme = open(os.path.join(os.path.dirname(os.path.dirname(func_adl_xAOD.__file__)), "README.md"), encoding="utf-8").read()
+    m = re.search(r"^- Math functions are pulled from the C\+\+ \[`cmath` library\]\([^)]*\):(.*)$", readme, re.M)
+    names = list(dict.fromkeys(re.findall(r"`([A-Za-z0-9_]+)`", m.group(1))))
+    only = args.get("only")
+    bad = []
+    for n in names:
+        for key in ([n] if not hasattr(builtins, n) else [n, "builtins." + n]):
+            if only and key not in only:
+                continue
+            if key not in tbl:
+                bad.append("%s is documented but `%s` is not in the function table" % (n, key))
+                continue
+            want = {"ln": ["std::log"], "abs": ["std::abs", "std::fabs"]}.get(n, ["std::" + n])
+            if tbl[key].cpp_name not in want:
+                bad.append("%s maps to %s, not to %s" % (key, tbl[key].cpp_name, " / ".join(want)))
+            if "cmath" not in tbl[key].include_files:
+                bad.append("%s does not pull in <cmath>" % key)
+    if bad:
+        return True, "; ".join(bad[:12])
+    return False, "all %d documented functions map to their namesakes" % len(names)
+
+
 def main():
     name = sys.argv[1]
     args = json.loads(sys.argv[2]) if len(sys.argv) > 2 else {}
